@@ -49,6 +49,7 @@ pipe_reap(void *arg)
 {
 	nni_pipe *p = arg;
 
+	NNI_VERIF_PT(NNI_VP_PIPE_REAP_BEFORE_CLOSE);
 	p->p_proto_ops.pipe_close(p->p_proto_data);
 
 	// Close the underlying transport.
@@ -68,9 +69,11 @@ pipe_reap(void *arg)
 	nni_stat_unregister(&p->st_root);
 #endif
 
+	NNI_VERIF_PT(NNI_VP_PIPE_REAP_BEFORE_STOP);
 	p->p_proto_ops.pipe_stop(p->p_proto_data);
 	p->p_tran_ops.p_stop(p->p_tran_data);
 
+	NNI_VERIF_PT(NNI_VP_PIPE_REMOVE);
 	nni_pipe_remove(p);
 
 	nni_pipe_rele(p);
@@ -135,6 +138,7 @@ nni_pipe_close(nni_pipe *p)
 		return; // We already did a close.
 	}
 
+	NNI_VERIF_PT(NNI_VP_PIPE_CLOSE_FLAGGED);
 	nni_reap(&pipe_reap_list, p);
 }
 
